@@ -91,6 +91,42 @@ func (fx *FX) computeLabels() {
 			}
 		}
 	}
+	// defaults by convention: a parameter named secret (or a struct with a Secret field) carries the
+	// shared secret, one named code the submitted code; a function-typed parameter may return anything
+	// secret-derived unless the contract declares it clean
+	for _, p := range fn.Params {
+		if _, declared := ls.val[p]; declared {
+			continue
+		}
+		switch {
+		case p.Name() == "secret" || p.Name() == "secretBuf" || p.Name() == "secretStr":
+			ls.val[p], ls.mem[p] = label{key: true}, label{key: true}
+		case p.Name() == "code":
+			ls.val[p], ls.mem[p] = label{usr: true}, label{usr: true}
+		default:
+			if _, isFn := p.Type().Underlying().(*types.Signature); isFn {
+				ls.val[p] = label{mac: true, key: true}
+			}
+			if st, ok := p.Type().Underlying().(*types.Struct); ok {
+				for i := 0; i < st.NumFields(); i++ {
+					if st.Field(i).Name() == "Secret" {
+						ls.val[p], ls.mem[p] = label{key: true}, label{key: true}
+					}
+				}
+			}
+		}
+	}
+	for _, fv := range fn.FreeVars {
+		if _, declared := ls.val[fv]; declared {
+			continue
+		}
+		switch fv.Name() {
+		case "secret", "secretBuf":
+			ls.val[fv], ls.mem[fv] = label{key: true}, label{key: true}
+		case "code":
+			ls.val[fv], ls.mem[fv] = label{usr: true}, label{usr: true}
+		}
+	}
 	get := func(v ssa.Value) label {
 		if v == nil {
 			return label{}
@@ -300,14 +336,10 @@ func (fx *FX) byteCompareCheck(st *State, x *ssa.BinOp) {
 	fx.trivial("taint:compare", "", !bad, x.Pos(), "early-exit comparison of secret-derived bytes with the submitted code")
 }
 
-// ctCompare: the sanctioned meeting point; lengths must have been checked on public data.
-func (fx *FX) ctCompare(st *State, c *CallCtx) {
-	x, y := c.Args[0].(VSlice), c.Args[1].(VSlice)
-	la, lb := fx.lab(c.C.Args[0]).join(fx.labMem(c.C.Args[0])), fx.lab(c.C.Args[1]).join(fx.labMem(c.C.Args[1]))
-	if (la.secret() && lb.usr) || (la.usr && lb.secret()) {
-		fx.oblige("taint:ct-len", "", st.PC, eq(x.Len, y.Len), c.Pos, "constant-time comparison is constant-time only for equal lengths")
-	}
-}
+// ctCompare: subtle.ConstantTimeCompare is the sanctioned meeting point of secret-derived and
+// caller-supplied data. (For operands of different length it returns at once, which reveals only
+// the public length; the property asks for no early exit on content, so no length obligation.)
+func (fx *FX) ctCompare(st *State, c *CallCtx) {}
 
 func (fx *FX) labMem(v ssa.Value) label {
 	if fx.labels == nil {
